@@ -33,7 +33,9 @@ SPEC = {
                 # the real operating-system State: error classes for a vanished interface, agreement with the sysctl files
                 {"pkg": "internal/system", "test": "TestVerifState", "newgo": True, "timeout": 600},
                 # the real Dialer.dial / setAutoconf / done closure on a veth pair against the real autoconf sysctl (root only)
-                {"pkg": "internal/system", "test": "TestVerifRealOS", "newgo": True, "timeout": 300}],
+                {"pkg": "internal/system", "test": "TestVerifRealOS", "newgo": True, "timeout": 300},
+        # the daemon end to end: the real main() in a child process, private network namespace, veth pair
+        {"pkg": "cmd/corerad", "test": "TestVerifE2E", "timeout": 300, "arch386": []}],
     "rule": "stream exhaustive: as C10dial, over mode {advertise, monitor} x initial autoconf {true, false} x real dial outcomes (all ok, set denied, lookup not-ready, open syscall error, get error, set other error, set not-exist with failing leave/close; thorough adds lookup other, check not-ready / syscall, open permission, get permission / not-exist) x task results {nil, link change, syscall, permission, canceled} x restore answers {ok, permission, not-exist, other} x failing leave/close x cancellation points, depth 4 (quick) / 6 (thorough) dial + task entries (= 2 / 3+ re-dials). stream random: long scripts as C10dial with real dials. stream state: the real NewState() of this host -- every State call on an interface that does not exist must return an error matching os.ErrNotExist (the class Dialer.setAutoconf tolerates on restore), reads agree with the sysctl files, concurrent reads of different files never mix. Non-trivial: more than 6 observed calls; distinct by script.",
     "nontrivial": lambda c: c.get("_driver") == "TestVerifState" or len(c.get("observed") or []) > 6,
     "trusted": ["props/C11.py stage_hook: in the staged internal/system/dialer.go only, `lookupInterface(`, `checkInterface(`, `dialNDP(` inside Dialer.dial become package variables (zz_verif_seam.go) that default to the real functions",
